@@ -44,6 +44,7 @@ func checkC07(w *World, r *Report) {
 	r.Rule("R07.9", "packets are retired only on a matching acknowledgement; the oldest is (re)sent first", 2)
 	r.Rule("R07.10", "a write succeeds only after its packets were acknowledged", 1)
 	r.Rule("R07.12", "the byte count of a write covers every chunk it queued", 1)
+	r.Rule("R07.17", "a flag raised around a region is lowered on every path out of it", 1)
 	r.Rule("R07.16", "every lock-protected field of the tunnel's queues and connections is written under one and the same mutex everywhere", 3)
 	r.Rule("R07.15", "mutexes of the DNS tunnel are acquired in one global order (no held-while-acquiring cycle)", 1)
 	r.Rule("R07.14", "no function re-locks a mutex it already holds (queues, call mutex, user table)", 3)
@@ -59,6 +60,7 @@ func checkC07(w *World, r *Report) {
 	c07Stride(w, r)
 	c07Bookkeeping(w, r)
 	c07ErrGuardedFields(w, r)
+	ruleFlagBrackets(w, r, "R07.17", func(p string) bool { return strings.HasPrefix(p, modPath+"/internal/streams/dns") }, "what tests the flag (the poller's retransmission of the queue head) stays switched off until some later call happens to lower it — a packet whose first transmission was lost is never sent again")
 	ruleLocksetConsistent(w, r, "R07.16", func(p string) bool { return strings.HasPrefix(p, modPath+"/internal/streams/dns") }, "a Read overlapping an Append sees a torn buffer: bytes are delivered twice or an acknowledged packet is lost")
 	ruleLockOrder(w, r, "R07.15", func(p string) bool { return strings.HasPrefix(p, modPath+"/internal/streams/dns") })
 	ruleNoReentrantLock(w, r, "R07.14", func(p string) bool { return strings.HasPrefix(p, modPath+"/internal/streams/dns") })
